@@ -183,6 +183,14 @@ def hang_key(prop, params, run_, base):
     return base + "|hang"
 
 
+def raised_key(params, run_, base):
+    """stable key of a run() that raises although no retry budget is exhausted: the recorded cause (a producer fails
+    while it is being re-executed for concurrent recoveries) is keyed by cause and program"""
+    if run_ is not None and producer_failed_during_recovery(params["spec"], run_):
+        return f"C16|raised|cause=producer-fails-while-being-re-executed-for-concurrent-recoveries|prog={params['spec']['prog']}"
+    return base + "|raised"
+
+
 def summarize(res):
     run_ = res["run"]
     counts = {}
